@@ -159,7 +159,11 @@ def monitors (m : Machine) (inp : Input) (g : Got) : List String :=
       let v := ((longs.find? (fun p => p.1 == "pika:threads")).map (·.2)).getD ""
       if allDigits v && digitsVal v.toList ≤ m.pus && digitsVal v.toList ≥ 1 && (iniFor "pika.force_min_os_threads").isEmpty
           && g.workers != digitsVal v.toList then
-        [s!"command line --pika:threads={v} but the runtime has {g.workers} workers"] else []
+        [s!"command line --pika:threads={v} but the runtime has {g.workers} workers"]
+      else if (iniFor "pika.force_min_os_threads").isEmpty && m.maskPus == m.pus && m.maskCores == m.cores &&
+          ((v == "cores" && g.workers != m.cores) || (v == "all" && g.workers != m.pus)) then
+        [s!"command line --pika:threads={v} on {m.cores} cores / {m.pus} PUs but the runtime has {g.workers} workers"]
+      else []
     else []
   -- (3) ini over environment over default, for rows without command-line option or when it is absent
   let m3 := settings.filterMap (fun s =>
